@@ -7,7 +7,7 @@ import itertools
 
 from ..astutil import attr_stores, call_name, calls_in, dotted, name_stores, unparse, walk_local
 from ..index import FuncInfo
-from ..report import Registry, sub
+from ..report import Registry, chain, sub
 from ._helpers_rob_h2 import Abs, Closure, Opq, PathInterp, Unsupported
 
 R = Registry(
@@ -25,7 +25,9 @@ R = Registry(
         "dialect-level form (.dialect_impl(dialect) / the _dialect_info memo), and TypeDecorator._gen_dialect_impl installs "
         "load_dialect_impl(dialect).dialect_impl(dialect) -- the recursive adaptation, not a colspecs lookup -- on the "
         "dialect-level copy; in every generated bind/result/literal processor of a TypeEngine subclass no falsy value "
-        "(b'', '', 0, False, timedelta(0)) is mapped to None by a truthiness / emptiness test."
+        "(b'', '', 0, False, timedelta(0)) is mapped to None by a truthiness / emptiness test; regex match groups that are "
+        "converted to numbers in a shared or type processor carry a default for groups that did not participate in the match, "
+        "the same one in every extraction of a processor."
     ),
     not_decided=(
         "value equality per type and backend; that processors are applied exactly once across labels, subqueries, "
@@ -748,6 +750,224 @@ def _helpers_called(ix, cls, f):
     return out
 
 
+# ---------------------------------------------------------------------- R5: regex groups converted to numbers carry a default
+# A date/time string is taken apart with a regular expression (possibly the user's: sqlite DATETIME(regexp=...)) and the
+# groups are converted with int().  A group that did not participate in the match (`(?:\.(\d+))?` without a fraction) is
+# None unless the extraction names a default: `m.groups(0)` / `m.groupdict(0)` / `int(x or 0)`.  Every extraction whose
+# elements reach a numeric conversion must supply one, and the extractions of one processor must supply the same one.
+GROUP_METHODS = ("groups", "groupdict")
+NUMERIC_CTORS = {"int", "float", "Decimal", "decimal.Decimal"}
+_COLL_WRAPPERS = {"list", "tuple", "iter", "reversed", "sorted"}
+_COMPS = (ast.ListComp, ast.GeneratorExp, ast.SetComp, ast.DictComp)
+
+
+def _const_default(e):
+    """the constant a missing value is replaced by, or None: `0`, `"0"` (not None itself)"""
+    if isinstance(e, ast.Constant) and e.value is not None:
+        return e
+    return None
+
+
+def _group_flow(owner, resolve=None):
+    """[(site call, explicit default expr or None, [unguarded numeric sinks], {guard defaults}, reaches numeric?)] for the
+    match-group extractions in `owner` (nested closures included).  Name-independent: the extraction is followed through
+    locals, list()/iter()/.values()/.items() wrappers, comprehension and loop variables, subscripts, zip() and helper
+    functions (`resolve(call)` -> FunctionDef) to the int()/float()/Decimal() calls and map(int, ...) it feeds."""
+    sites = [c for c in ast.walk(owner) if isinstance(c, ast.Call) and isinstance(c.func, ast.Attribute)
+             and c.func.attr in GROUP_METHODS]
+    if not sites:
+        return []
+    unguarded, guards, reaches = _numeric_sinks(owner, {id(c): i for i, c in enumerate(sites)}, {}, resolve, 0)
+    out = []
+    for i, c in enumerate(sites):
+        d = c.args[0] if c.args else next((k.value for k in c.keywords if k.arg == "default"), None)
+        if d is not None and isinstance(d, ast.Constant) and d.value is None:
+            d = None
+        out.append((c, d, unguarded.get(i, []), guards.get(i, set()), i in reaches))
+    return out
+
+
+def _numeric_sinks(owner, idx, seed_env, resolve, depth):
+    """(unguarded {site: [numeric conversion calls]}, guards {site: {default texts}}, sites that reach a numeric conversion).
+    `idx`: id(call node) -> site number for extraction calls inside `owner`; `seed_env`: names that hold (elements of) a
+    site's groups on entry (a helper's parameters)."""
+    env = dict(seed_env)
+
+    def cls(e):
+        if e is None:
+            return frozenset()
+        if id(e) in idx:
+            return frozenset({(idx[id(e)], "coll")})
+        if isinstance(e, ast.Name):
+            return env.get(e.id, frozenset())
+        if isinstance(e, ast.Starred):
+            return cls(e.value)
+        if isinstance(e, ast.Call):
+            if isinstance(e.func, ast.Name) and e.func.id in _COLL_WRAPPERS | {"zip", "enumerate"} and e.args:
+                out = frozenset()
+                for a in e.args:
+                    out |= cls(a)
+                return out
+            if isinstance(e.func, ast.Attribute) and e.func.attr in ("values", "items", "copy"):
+                return cls(e.func.value)
+            return frozenset()
+        if isinstance(e, ast.Subscript):
+            return frozenset((i, "elem") for i, k in cls(e.value))
+        if isinstance(e, ast.BoolOp) and isinstance(e.op, ast.Or):
+            if _const_default(e.values[-1]) is not None:
+                return frozenset()
+            out = frozenset()
+            for v in e.values:
+                out |= cls(v)
+            return out
+        if isinstance(e, ast.IfExp):
+            arms = [a for a in (e.body, e.orelse) if _const_default(a) is None]
+            if len(arms) == 1 and cls(e.test):
+                return frozenset()   # `x if x is not None else 0`-style guard on the element
+            return cls(e.body) | cls(e.orelse)
+        return frozenset()
+
+    def bind(target, kinds):
+        ch = False
+        for n in ast.walk(target):
+            if isinstance(n, ast.Name) and not kinds <= env.get(n.id, frozenset()):
+                env[n.id] = env.get(n.id, frozenset()) | kinds
+                ch = True
+        return ch
+
+    changed = True
+    while changed:
+        changed = False
+        for n in ast.walk(owner):
+            if isinstance(n, ast.Assign):
+                k = cls(n.value)
+                if k:
+                    for t in n.targets:
+                        changed |= bind(t, k)
+            elif isinstance(n, (ast.AnnAssign, ast.NamedExpr)) and n.value is not None:
+                k = cls(n.value)
+                if k:
+                    changed |= bind(n.target, k)
+            elif isinstance(n, _COMPS):
+                for g in n.generators:
+                    k = frozenset((i, "elem") for i, kd in cls(g.iter))
+                    if k:
+                        changed |= bind(g.target, k)
+            elif isinstance(n, ast.For):
+                k = frozenset((i, "elem") for i, kd in cls(n.iter))
+                if k:
+                    changed |= bind(n.target, k)
+    unguarded, guards, reaches = {}, {}, set()
+    for c in ast.walk(owner):
+        if not isinstance(c, ast.Call):
+            continue
+        nm = dotted(c.func) or ""
+        if nm in NUMERIC_CTORS and c.args:
+            a = c.args[0]
+            for i, kd in cls(a):
+                if kd == "elem":
+                    unguarded.setdefault(i, []).append(c)
+                    reaches.add(i)
+            if isinstance(a, ast.BoolOp) and isinstance(a.op, ast.Or) and _const_default(a.values[-1]) is not None:
+                for v in a.values[:-1]:
+                    for i, kd in cls(v):
+                        guards.setdefault(i, set()).add(unparse(a.values[-1]))
+                        reaches.add(i)
+        elif nm == "map" and len(c.args) >= 2 and (dotted(c.args[0]) or "") in NUMERIC_CTORS:
+            for a in c.args[1:]:
+                for i, kd in cls(a):
+                    unguarded.setdefault(i, []).append(c)
+                    reaches.add(i)
+        elif resolve is not None and depth < 2 and id(c) not in idx:
+            helper = resolve(c)
+            if helper is None or helper is owner:
+                continue
+            params = [a.arg for a in helper.args.posonlyargs + helper.args.args if a.arg not in ("self", "cls")]
+            seeds = {}
+            for j, a in enumerate(c.args):
+                k = cls(a)
+                if k and j < len(params) and not isinstance(a, ast.Starred):
+                    seeds[params[j]] = k
+            for kw in c.keywords:
+                k = cls(kw.value)
+                if k and kw.arg:
+                    seeds[kw.arg] = k
+            if seeds:
+                u2, g2, r2 = _numeric_sinks(helper, {}, seeds, resolve, depth + 1)
+                for i, lst in u2.items():
+                    unguarded.setdefault(i, []).extend(lst)
+                for i, st in g2.items():
+                    guards.setdefault(i, set()).update(st)
+                reaches |= r2
+    return unguarded, guards, reaches
+
+
+@R.rule("C09-R5", floor=5, template="T-FLOW/T-SIBLING",
+        desc="in the shared processors (engine/processors.py, _processors_cy.py) and in every bind/result/literal processor of a "
+             "TypeEngine subclass, regex match groups that reach int()/float()/Decimal() (directly, through map(), a "
+             "comprehension, .values()/.items()) are extracted with a default for groups that did not participate "
+             "(`groups(0)`, `groupdict(0)`, `int(x or 0)`), and the extractions of one processor supply the same default")
+def r5(ctx):
+    ix = ctx.index
+    te = ix.cls(f"{TA}::TypeEngine")
+    owners = []
+    for rel in (PROC, PCY):
+        m = ix.module(rel)
+        owners.extend(f for n, f in sorted(m.functions.items()) if isinstance(f.node, ast.FunctionDef) and not f.type_only)
+        for cname, c in sorted(m.classes.items()):
+            owners.extend(f for n, f in sorted(c.methods.items()) if not f.type_only)
+    for c in sorted(ix.all_classes(), key=lambda c: c.key):
+        if c.module.relpath.startswith("testing/") or not (c is te or te in ix.mro(c)):
+            continue
+        for kind in KINDS:
+            f = c.methods.get(kind)
+            if f is None or f.type_only:
+                continue
+            owners.extend([f] + _helpers_called(ix, c, f))
+    seen = set()
+    for f in owners:
+        if f.key in seen or not any(isinstance(n, ast.Attribute) and n.attr in GROUP_METHODS for n in ast.walk(f.node)):
+            continue
+        seen.add(f.key)
+        def resolve(call, f=f):
+            fn = call.func
+            tgt = None
+            if isinstance(fn, ast.Name):
+                tgt = f.module.functions.get(fn.id)
+            elif isinstance(fn, ast.Attribute) and isinstance(fn.value, ast.Name) and fn.value.id in ("self", "cls") and f.cls is not None:
+                tgt = ix.resolve_method(f.cls, fn.attr)
+            if tgt is None or tgt.type_only or not isinstance(tgt.node, ast.FunctionDef):
+                return None
+            ctx.functions_analysed.add(tgt.key)
+            return tgt.node
+
+        flow = [x for x in _group_flow(f.node, resolve) if x[4]]
+        if not flow:
+            continue
+        ctx.functions_analysed.add(f.key)
+        effective = {}
+        count = {}
+        for call, dflt, sinks, guards, _r in flow:
+            meth = call.func.attr
+            count[meth] = count.get(meth, 0) + 1
+            key = f"{f.key}:{meth}{'#%d' % count[meth] if count[meth] > 1 else ''}:default-for-unmatched-groups"
+            ok = dflt is not None or not sinks
+            eff = unparse(dflt) if dflt is not None else ("/".join(sorted(guards)) if guards and not sinks else "None")
+            effective[key] = eff
+            ctx.check(ok, key,
+                      f"`{unparse(call)}` names no default, so a group that did not participate in the match (an optional part of "
+                      f"the pattern: `(?:\\.(\\d+))?` with no fraction in the stored text) is None, and it reaches "
+                      f"`{unparse(sinks[0])[:60] if sinks else ''}` unguarded: TypeError instead of the stored value (a time "
+                      f"without microseconds cannot be selected back)",
+                      f"unmatched groups become {eff} before the numeric conversion", f"{f.module.path}:{call.lineno}")
+        if len(flow) > 1:
+            vals = sorted(set(effective.values()))
+            ctx.check(len(vals) == 1, f"{f.key}:group-defaults-agree",
+                      f"the group extractions of this processor replace an unmatched group by different things: {effective} -- the "
+                      f"named-group and the positional form of the same pattern would produce different values",
+                      f"all {len(flow)} extractions default to {vals[0]}", f.loc)
+
+
 # ---------------------------------------------------------------------- self-test battery
 R.mutant("bind-impl-inside-user", TA,
          sub("                def process(value: Optional[_T]) -> Any:\n                    return fixed_impl_processor(\n                        fixed_process_param(value, dialect)\n                    )",
@@ -904,3 +1124,36 @@ R.mutant('benign-binary-bind-closure-from-helper', 'sql/sqltypes.py',
 R.mutant('binary-bind-helper-closure-empty-to-null', 'sql/sqltypes.py',
          sub('        def process(value):\n            if value is not None:\n                return DBAPIBinary(value)\n            else:\n                return None\n\n        return process\n',
              '        return self._wrap_binary(DBAPIBinary)\n\n    def _wrap_binary(self, ctor):\n        def process(value):\n            return ctor(value) if value else None\n\n        return process\n'), 'C09-R4')
+
+# ---- round 2 (str2-d): R5, regex groups reach int() with a default (seed C09_4 and its class)
+_POS = "                return type_(*list(map(int, m.groups(0))))\n"
+_NAMED = ("                groups = m.groupdict(0)\n                return type_(\n                    **dict(\n                        list(\n"
+          "                            zip(\n                                iter(groups.keys()),\n"
+          "                                list(map(int, iter(groups.values()))),\n                            )\n                        )\n"
+          "                    )\n                )\n")
+_NAMED_COMP = ("                return type_(\n                    **{\n                        name: int(text)\n"
+               "                        for name, text in m.groupdict(%s).items()\n                    }\n                )\n")
+R.mutant("r5-seed4-positional-groups-lose-default", PROC,
+         chain(sub(_NAMED, _NAMED_COMP % "0"), sub(_POS, "                return type_(*[int(text) for text in m.groups()])\n")), "C09-R5")
+R.mutant("r5-positional-groups-default-dropped-in-place", PROC, sub(_POS, "                return type_(*list(map(int, m.groups())))\n"), "C09-R5")
+R.mutant("r5-named-groups-lose-default", PROC, sub(_NAMED, _NAMED_COMP % ""), "C09-R5")
+R.mutant("r5-siblings-disagree-on-default", PROC, sub(_POS, "                return type_(*list(map(int, m.groups(1))))\n"), "C09-R5")
+R.mutant("r5-mssql-time-guard-dropped", "dialects/mssql/base.py",
+         sub("                return datetime.time(*[int(x or 0) for x in m.groups()])\n",
+             "                return datetime.time(*[int(x) for x in m.groups()])\n"), "C09-R5")
+R.mutant("r5-helper-converts-undefaulted-groups", PROC,
+         chain(sub(_POS, "                return type_(*_as_ints(m.groups()))\n"),
+               sub("def str_to_datetime_processor_factory(\n", "def _as_ints(parts):\n    return [int(part) for part in parts]\n\n\ndef str_to_datetime_processor_factory(\n")), "C09-R5")
+R.mutant("benign-r5-comprehensions-with-defaults", PROC,
+         chain(sub(_NAMED, _NAMED_COMP % "0"), sub(_POS, "                return type_(*[int(text) for text in m.groups(0)])\n")), None)
+R.mutant("benign-r5-positional-groups-through-local-and-keyword-default", PROC,
+         sub(_POS, "                parts = m.groups(default=0)\n                numbers = [int(p) for p in parts]\n                return type_(*numbers)\n"), None)
+R.mutant("benign-r5-helper-converts-defaulted-groups", PROC,
+         chain(sub(_POS, "                return type_(*_as_ints(m.groups(0)))\n"),
+               sub("def str_to_datetime_processor_factory(\n", "def _as_ints(parts):\n    return [int(part) for part in parts]\n\n\ndef str_to_datetime_processor_factory(\n")), None)
+R.mutant("benign-r5-inverted-named-test-early-return", PROC,
+         chain(sub("            if has_named_groups:\n                groups = m.groupdict(0)\n", "            if not has_named_groups:\n                return type_(*list(map(int, m.groups(0))))\n            else:\n                groups = m.groupdict(0)\n"),
+               sub("            else:\n" + _POS, "")), None)
+R.mutant("benign-r5-mssql-date-default-in-extraction", "dialects/mssql/base.py",
+         sub("                return datetime.date(*[int(x or 0) for x in m.groups()])\n",
+             "                return datetime.date(*[int(x) for x in m.groups(0)])\n"), None)
